@@ -15,17 +15,6 @@ Proof. unfold sub. rewrite <- skipn_skipn. apply firstn_firstn_skipn. Qed.
 Lemma sub_0 {A} i (l : list A) : sub i 0 l = [].
 Proof. reflexivity. Qed.
 
-(* a run inside one block, read from the lane vector *)
-Lemma sub_lanes_of ws b o n : (b < length ws)%nat -> (o + n <= 32)%nat ->
-  sub (32 * b + o) n (lanes_of ws) = sub o n (decode 32 (nth b ws 0)).
-Proof.
-  intros Hb Ho. apply nth_ext'.
-  - rewrite !sub_length; rewrite ?decode_length, ?lanes_of_length; lia.
-  - intros d i Hi. rewrite sub_length in Hi by (rewrite lanes_of_length; lia).
-    rewrite !nth_sub by exact Hi. replace (32 * b + o + i)%nat with (32 * b + (o + i))%nat by lia.
-    apply nth_lanes_of; lia.
-Qed.
-
 (* ---------------------------------------------------------------- the block walk *)
 Section Walk.
 Variable c : kcfg.
